@@ -158,6 +158,15 @@ def build(n):
     raise ValueError(t)
 
 
+
+def relayout(a, tag=0):
+    """same values in Fortran (column-major) memory order for every other call: the algebra must not depend on the
+    memory layout of the arrays that flow between the operators (flattening is row-major by definition)"""
+    a = np.asarray(a)
+    if a.ndim >= 2 and (int(tag) + a.size) % 2 == 0:
+        return np.asfortranarray(a)
+    return a
+
 def dense_of(A, dtype=complex):
     """dense matrix of a real operator through basis vectors (exact: entries are small dyadic rationals)"""
     ish, osh = [int(s) for s in A.ishape], [int(s) for s in A.oshape]
@@ -166,7 +175,7 @@ def dense_of(A, dtype=complex):
     for j in range(ni):
         e = np.zeros(ni, dtype=dtype)
         e[j] = 1
-        y = A(e.reshape(ish))
+        y = A(relayout(e.reshape(ish), j))
         if tuple(y.shape) != tuple(osh):
             raise ShapeError("A(x).shape=%s but A.oshape=%s" % (tuple(y.shape), osh))
         D[:, j] = np.asarray(y).ravel()
@@ -252,7 +261,7 @@ def run_impl(tree, xshape, x):
         return "err build"
     osh, ish = [int(s) for s in A.oshape], [int(s) for s in A.ishape]
     try:
-        y = A(np.array(x).reshape(xshape))
+        y = A(relayout(np.array(x).reshape(xshape), len(x)))
     except Exception as e:  # noqa
         return ("ok", osh, ish, "apply-error")
     return ("ok", osh, ish, canon_arr(y))
@@ -687,7 +696,7 @@ def check_tree(n, x=None, dtype=None):
     if x is not None:
         xv = np.array(x, dtype=dt if dtype else complex)
         try:
-            y = A(xv.reshape(ish))
+            y = A(relayout(xv.reshape(ish), 0))
         except Exception as e:
             return ("apply-raises", "%r <- %r" % (e, e.__cause__), "A(x)")
         if tuple(y.shape) != tuple(osh):
